@@ -207,7 +207,11 @@ func c16GetStatus(c *mon.Ctx) {
 		for rep := 0; rep < c.Pick(4, 200); rep++ {
 			payload := r.Bytes(n)
 			sim := simkernel.New(uint32(n) + 1)
+			other := r.Bytes(uapi.StatusSize)
 			sim.OnSend = func(s *simkernel.Sim, idx int, m simkernel.SentMsg) []simkernel.Step {
+				if idx > 0 {
+					return []simkernel.Step{{Dgram: simkernel.Ack(m, 0)}, {Dgram: simkernel.Dgram(uapi.MsgGet, 0, m.Seq, 0, other)}}
+				}
 				return []simkernel.Step{{Dgram: simkernel.Ack(m, 0)}, {Dgram: simkernel.Dgram(uapi.MsgGet, 0, m.Seq, 0, payload)}}
 			}
 			cl := &libaudit.AuditClient{Netlink: sim}
@@ -220,7 +224,7 @@ func c16GetStatus(c *mon.Ctx) {
 			}
 			c.Add("evaluations", 1)
 			c.Add("getstatus_cases", 1)
-			if len(sim.Sent) != 1 || sim.Sent[0].Type != uapi.MsgGet || sim.Sent[0].Flags != uapi.NlmFRequest|uapi.NlmFAck || len(sim.Sent[0].Data) != 0 {
+			if len(sim.Sent) < 1 || sim.Sent[0].Type != uapi.MsgGet || sim.Sent[0].Flags != uapi.NlmFRequest|uapi.NlmFAck || len(sim.Sent[0].Data) != 0 {
 				c.Violation("getstatus-request", fmt.Sprintf("GetStatus sent %d requests; first: type=%d flags=%#x payload=%d bytes; want one AUDIT_GET (1000) with REQUEST|ACK and no payload", len(sim.Sent), sim.Sent[0].Type, sim.Sent[0].Flags, len(sim.Sent[0].Data)), k)
 			}
 			if n < uapi.StatusMinSize {
@@ -233,12 +237,16 @@ func c16GetStatus(c *mon.Ctx) {
 				c.Violation("getstatus-rejected", fmt.Sprintf("GetStatus rejected a %d-byte reply: %v", n, err), k)
 				continue
 			}
+			// later traffic on the same client reuses the one receive buffer: the status already returned must not change
+			if _, err2 := cl.GetStatus(); err2 != nil {
+				c.Violation("getstatus-second-call", fmt.Sprintf("a second GetStatus failed: %v", err2), k)
+			}
 			got := []uint32{uint32(st.Mask), st.Enabled, st.Failure, st.PID, st.RateLimit, st.BacklogLimit, st.Lost, st.Backlog, st.FeatureBitmap, st.BacklogWaitTime, st.BacklogWaitTimeActual}
 			for i, v := range got {
 				off := 4 * i
 				if off+4 <= n {
 					if want := binary.LittleEndian.Uint32(payload[off:]); v != want {
-						c.Violation("getstatus-field", fmt.Sprintf("GetStatus(%d-byte reply): word %d = %#x, the kernel laid out %#x", n, i, v, want), k)
+						c.Violation("getstatus-field", fmt.Sprintf("GetStatus(%d-byte reply): word %d = %#x (read after a later receive on the same client), the kernel laid out %#x", n, i, v, want), k)
 						break
 					}
 				} else if off >= n && v != 0 {
